@@ -186,3 +186,124 @@ def header(rng, n_funcs=8, tag="fp", odd_suffix=False):
     L.append("")
     L.append("#endif")
     return "\n".join(L) + "\n", truth
+
+
+# ---------------------------------------------------------------------------------------------------------------
+# colliding signatures: several functions/methods in ONE header whose types differ only in a floating default
+# ---------------------------------------------------------------------------------------------------------------
+
+DYADIC = ["0.5", "2.0", "0.25", "4.0", "1.5", "3.0", "0.75", "8.0", "0.125", "6.0", "1.0"]
+
+
+def _scale_pow2(digits, k):
+    """exact decimal spelling of value(digits) * 2**k (scaling by a power of two commutes with rounding to double
+    in the normal range, so the doubles share their significand)."""
+    import decimal
+    ctx = decimal.Context(prec=400)
+    v = ctx.multiply(decimal.Decimal(digits), ctx.power(decimal.Decimal(2), k))
+    s = format(v, "f")
+    if "." in s:
+        s = s.rstrip("0")
+        if s.endswith("."):
+            s += "0"
+    else:
+        s += ".0"
+    return s
+
+
+def _adjacent(rng):
+    import math
+    x = float("%.6g" % (rng.uniform(0.001, 1000.0)))
+    up = math.nextafter(x, math.inf)
+    dn = math.nextafter(x, -math.inf)
+    return [repr(dn), repr(x), repr(up)]
+
+
+def collide_groups(rng):
+    """-> list of (relation-class, ptype, [(sign, text, digits, suffix)])"""
+    def plain(vals, sign="+"):
+        return [(sign, v, v, "-") for v in vals]
+
+    groups = []
+    # powers of two apart: same significand, different binary exponent
+    for base in rng.sample(["0.5", "0.1", "1.5", "45.0", "0.3", "3.14159", "12.75", "0.001", "33.3", "7.0"], 3) + \
+            ["%d.%d" % (rng.randint(0, 99), rng.randint(1, 999))]:
+        ks = sorted(rng.sample(range(-5, 6), rng.randint(2, 4)))
+        groups.append(("pow2", rng.choice("ddf"), plain([_scale_pow2(base, k) for k in ks])))
+    groups.append(("pow2-far", "d", plain([_scale_pow2("1.25", k) for k in (-200, -64, 0, 64, 200)])))
+    groups.append(("negzero", "d", [("+", "0.0", "0.0", "-"), ("-", "0.0", "0.0", "-"), ("+", "0.", "0.", "-")]))
+    x = rng.choice(["2.5", "0.7", "1e10", "3.0"])
+    groups.append(("negated", "d", [("+", x, x, "-"), ("-", x, x, "-")]))
+    groups.append(("spelling", "d", plain(["0.1", "1e-1", "0.10", "1.0e-1", ".1", "100e-3"])))
+    dy = rng.sample(DYADIC, 4)
+    groups.append(("suffix", "d", [("+", dy[0] + "f", dy[0], "f"), ("+", dy[0], dy[0], "-"), ("+", dy[1] + "F", dy[1], "f"),
+                                   ("+", dy[2], dy[2], "-"), ("+", dy[3] + "L", dy[3], "l")]))
+    groups.append(("suffix", "f", [("+", dy[0] + "f", dy[0], "f"), ("+", dy[1] + "f", dy[1], "f"), ("+", dy[2], dy[2], "-")]))
+    groups.append(("adjacent", "d", plain(_adjacent(rng))))
+    n = rng.randint(1, 90)
+    groups.append(("same-int-part", rng.choice("df"), plain(["%d.25" % n, "%d.5" % n, "%d.75" % n, "%d.3" % n])))
+    groups.append(("float-close", "d", plain(["0.1", "0.1000000001", "0.10000000000000002", "0.09999999999"])))
+    groups.append(("far", "d", plain(["1e300", "1e-300", "1.0", "1e-307"])))
+    groups.append(("int-vs-real", "d", plain(["2", "2.0", "4.0", "1", "0"])))
+    # the power-of-two families come first (always present), the other relations are sampled
+    head = [g for g in groups if g[0] == "pow2"]
+    tail = [g for g in groups if g[0] != "pow2"]
+    rng.shuffle(head)
+    rng.shuffle(tail)
+    return head[:2] + tail
+
+
+def collide_header(rng, tag="fpc", n_groups=6):
+    """One header in which, per group, several functions/methods have the same return type, parameter names and
+    parameter types and differ only in a floating default argument.  Sites are located by (function name, parameter
+    position); function names are unique.  -> (text, truth)"""
+    groups = collide_groups(rng)[:n_groups]
+    L = ["#ifndef %s_H" % tag.upper(), "#define %s_H" % tag.upper(), ""]
+    truth = []
+    uid = [0]
+
+    def nid(p):
+        uid[0] += 1
+        return "%s_%s%d" % (tag, p, uid[0])
+
+    free = []
+    classes = []
+    for g, (rel, ptype, lits) in enumerate(groups):
+        pname = "v%d" % g
+        shape = rng.choice(["free", "free", "free2", "methods", "methods2"])
+        ret = rng.choice(["void", "double", "int"])
+        order = list(lits)
+        rng.shuffle(order)
+        const0 = rng.choice(["0.5", "1.0", "0.25"])
+
+        def decl(func, lit, indent=""):
+            sign, text, digits, suffix = lit
+            ps = []
+            pos = 0
+            if shape == "free2":
+                ps.append("int n%d" % g)
+                ps.append("double a%d = %s" % (g, const0))
+                truth.append(dict(id="%s#1" % func, kind="default", name="a%d" % g, func=func, pos=1, ptype="d", sign="+",
+                                  text=const0, digits=const0, suffix="-", sep=False, cls="const", group=g))
+                pos = 2
+            ps.append("%s %s = %s%s" % (PTYPE[ptype], pname, "-" if sign == "-" else "", text))
+            truth.append(dict(id="%s#%d" % (func, pos), kind="default", name=pname, func=func, pos=pos, ptype=ptype, sign=sign,
+                              text=text, digits=digits, suffix=suffix, sep=False, cls=rel, group=g))
+            return "%s%s %s(%s);" % (indent, ret, func, ", ".join(ps))
+
+        if shape in ("free", "free2"):
+            for lit in order:
+                free.append(decl(nid("g"), lit))
+        else:
+            ncls = 1 if shape == "methods" else 2
+            cl = [[] for _ in range(ncls)]
+            for i, lit in enumerate(order):
+                cl[i % ncls].append(decl(nid("m"), lit, "  "))
+            for body in cl:
+                cn = nid("K")
+                classes.append("class %s {\npublic:\n  %s();\n%s\n};\n" % (cn, cn, "\n".join(body)))
+    rng.shuffle(free)
+    L += classes
+    L += free
+    L += ["", "#endif"]
+    return "\n".join(L) + "\n", truth
